@@ -310,6 +310,7 @@ def live_tier(tier, seed, stats):
 
 
 PROP = Property(
+    prelude=True,
     id="C14",
     level="exploration",
     rule=("Hypothesis generates fd tables of 0-12 (thorough 40) descriptors "
